@@ -159,7 +159,11 @@ class MediaRequestBase(RequestHandlerBase):
         adp_set.compute_av_values()
 
         now = datetime.datetime.now(tz=UTC())
-        timing = DashTiming(now, stream.timing_reference, options)
+        try:
+            timing = DashTiming(now, stream.timing_reference, options)
+        except (ValueError, OverflowError) as err:
+            logging.warning('Invalid CGI parameters: %s', err)
+            return flask.make_response('Invalid CGI parameters', 400)
         adp_set.set_dash_timing(timing)
         try:
             mod_segment, origin_time, sn = self.calculate_media_segment_index(
